@@ -81,6 +81,13 @@ def run(ck, F):
     ck.rules[K.R_atom]['floor'] = 2
     ck.rules[K.R_guard]['floor'] = 15
     ck.extra['tables'] = sorted(tables)
+    # names are unified by the characters of their String: two spellings are one name exactly when their Strings are one, and a
+    # String stands for its spelling only if it views every byte of it (a view cut at the first NUL makes `ab\\0cd` and `ab` one name)
+    R_sc = ck.rule('C04.string-content', 'the String a spelling is interned as views the data and the length of the one arena header made from '
+                   '(word.data(), word.length()): every byte of the request, embedded NULs included, and no other', floor=1)
+    import arena as _arena
+    for inst_, ok_, msg_, loc_, fid_ in _arena.owned_bytes(F):
+        ck.check(R_sc, inst_, ok_, msg_ + ' -- two different spellings can then be one Identifier / Logogram, or one spelling two', loc=loc_, fn=fid_)
     import words as _words
     _W, _kw, _strays = _words.static_words_outside_table(F)
     R_tab_only = ck.rule('C04.static-words-in-the-table', 'every statically allocated word (an object of the class of the reserved-word table\'s '
